@@ -12,7 +12,9 @@ theorem pow5_get : ∀ i, i < 28 → powerOfFive[i]? = some (5 ^ i) := by decide
 theorem inv_to_close (b N j x : Nat) (hN : 0 < N) (h : PosInv b N j) (hj : j ≤ 2 ^ 20) :
     0 < b ∧ b * 2 ^ (x + 64 * j) ≤ N * 2 ^ x ∧
     (Nat.log2 b ≤ 52 → N * 2 ^ x = b * 2 ^ (x + 64 * j)) ∧
-    (52 < Nat.log2 b → N * 2 ^ x < b * 2 ^ (x + 64 * j) + 2 ^ (Nat.log2 b - 53) * 2 ^ (x + 64 * j)) := by
+    (52 < Nat.log2 b → N * 2 ^ x < b * 2 ^ (x + 64 * j) + 2 ^ (Nat.log2 b - 53) * 2 ^ (x + 64 * j)) ∧
+    (52 < Nat.log2 b →
+      16 * (N * 2 ^ x) < 16 * (b * 2 ^ (x + 64 * j)) + 2 ^ (Nat.log2 b - 53) * 2 ^ (x + 64 * j)) := by
   obtain ⟨h1, h2, h3⟩ := h
   have hM : 0 < 2 ^ (64 * j) := Nat.pow_pos (by decide)
   have hX : 0 < 2 ^ x := Nat.pow_pos (by decide)
@@ -23,7 +25,7 @@ theorem inv_to_close (b N j x : Nat) (hN : 0 < N) (h : PosInv b N j) (hj : j ≤
     · exact h0
   have hb0 : b ≠ 0 := by omega
   obtain ⟨hlo, hhi⟩ := log2_bounds b hb0
-  refine ⟨hb, ?_, ?_, ?_⟩
+  refine ⟨hb, ?_, ?_, ?_, ?_⟩
   · rw [hpow, ← Nat.mul_assoc]; exact Nat.mul_le_mul_right _ h1
   · intro hbit
     have hb53 : b < 2 ^ 128 := Nat.lt_of_lt_of_le hhi (Nat.pow_le_pow_right (by decide) (by omega))
@@ -67,12 +69,55 @@ theorem inv_to_close (b N j x : Nat) (hN : 0 < N) (h : PosInv b N j) (hj : j ≤
       exact absurd this (by decide)
     calc N * 2 ^ x < (b * M + T * M) * 2 ^ x := Nat.mul_lt_mul_of_pos_right key hX
       _ = b * (M * 2 ^ x) + T * (M * 2 ^ x) := by ring
+  · intro hbit
+    obtain ⟨t, ht⟩ : ∃ t, Nat.log2 b = 53 + t := ⟨Nat.log2 b - 53, by omega⟩
+    rw [show Nat.log2 b - 53 = t by omega, hpow]
+    have hhi' : b < 2 ^ 54 * 2 ^ t := by rw [← Nat.pow_add, show 54 + t = Nat.log2 b + 1 by omega]; exact hhi
+    generalize 2 ^ (64 * j) = M at *
+    generalize 2 ^ t = T at *
+    have hT : 0 < T := by
+      rcases Nat.eq_zero_or_pos T with h0 | h0
+      · subst h0; simp at hhi'
+      · exact h0
+    have hTM : 0 < T * M := Nat.mul_pos hT hM
+    have key : 16 * N < 16 * (b * M) + T * M := by
+      by_contra hcon
+      have hcon' : 16 * (b * M) + T * M ≤ 16 * N := by omega
+      have e1 : (16 * (b * M) + T * M) * 2 ^ 127 ≤ 16 * ((2 ^ 127 + j) * (b * M)) := by
+        calc (16 * (b * M) + T * M) * 2 ^ 127 ≤ 16 * N * 2 ^ 127 := Nat.mul_le_mul_right _ hcon'
+          _ = 16 * (N * 2 ^ 127) := by ring
+          _ ≤ 16 * ((2 ^ 127 + j) * (b * M)) := Nat.mul_le_mul_left _ h2
+      have e2 : T * M * 2 ^ 127 ≤ 16 * (j * (b * M)) := by
+        have a1 : (16 * (b * M) + T * M) * 2 ^ 127 = 16 * (b * M) * 2 ^ 127 + T * M * 2 ^ 127 := by ring
+        have a2 : 16 * ((2 ^ 127 + j) * (b * M)) = 16 * (b * M) * 2 ^ 127 + 16 * (j * (b * M)) := by ring
+        rw [a1, a2] at e1
+        exact Nat.le_of_add_le_add_left e1
+      have e3 : 16 * (j * (b * M)) ≤ 16 * (2 ^ 20 * (2 ^ 54 * T * M)) := by
+        apply Nat.mul_le_mul_left
+        calc j * (b * M) ≤ 2 ^ 20 * (b * M) := Nat.mul_le_mul_right _ hj
+          _ ≤ 2 ^ 20 * (2 ^ 54 * T * M) :=
+              Nat.mul_le_mul_left _ (Nat.mul_le_mul_right _ (Nat.le_of_lt hhi'))
+      have e4 : T * M * 2 ^ 127 ≤ T * M * 2 ^ 78 := by
+        calc T * M * 2 ^ 127 ≤ 16 * (2 ^ 20 * (2 ^ 54 * T * M)) := Nat.le_trans e2 e3
+          _ = T * M * 2 ^ 78 := by rw [show (2 : Nat) ^ 78 = 16 * (2 ^ 20 * 2 ^ 54) by decide]; ring
+      have := Nat.le_of_mul_le_mul_left e4 hTM
+      exact absurd this (by decide)
+    calc 16 * (N * 2 ^ x) = 16 * N * 2 ^ x := by ring
+      _ < (16 * (b * M) + T * M) * 2 ^ x := Nat.mul_lt_mul_of_pos_right key hX
+      _ = 16 * (b * (M * 2 ^ x)) + T * (M * 2 ^ x) := by ring
+
+/-- margin of a positive integer value: it needs no rounding (at most 53 bits), or it is at least 1/32 of
+its unit in the last place away from the half-way points -/
+def MarginInt (V : Nat) : Prop :=
+  Nat.log2 V ≤ 52 ∨
+    (32 * (V % 2 ^ (Nat.log2 V - 52)) + 2 ^ (Nat.log2 V - 52) ≤ 16 * 2 ^ (Nat.log2 V - 52) ∨
+     17 * 2 ^ (Nat.log2 V - 52) ≤ 32 * (V % 2 ^ (Nat.log2 V - 52)))
 
 /-- the result is the capped raw pattern of some `(b, s)` that is within one of the specification's
 raw pattern of `num·10^x` and not below its truncation -/
 theorem powerOfPositiveTen_raw (num x : Nat) (hn0 : 0 < num) (hn : num < 2 ^ 64) (hx : x ≤ 2 ^ 20) :
     ∃ c, powerOfPositiveTen num x = some (cap c) ∧ specRaw (num * 10 ^ x) ≤ c + 1 ∧ c ≤ specRaw (num * 10 ^ x) + 1 ∧
-      floorRaw (num * 10 ^ x) ≤ c := by
+      floorRaw (num * 10 ^ x) ≤ c ∧ (MarginInt (num * 10 ^ x) → specRaw (num * 10 ^ x) = c) := by
   obtain ⟨p27, hp27e, hcases⟩ := posScale_closed num x hn
   have hp27 : p27 = 5 ^ 27 := by
     have := pow5_get 27 (by decide); rw [hp27e] at this; exact Option.some.inj this
@@ -105,15 +150,31 @@ theorem powerOfPositiveTen_raw (num x : Nat) (hn0 : 0 < num) (hn : num < 2 ^ 64)
       exact hinv.mul pj (by rw [hpj]; exact Nat.pow_pos (by decide))
   obtain ⟨b, s, hps, hb256, hsx, hfin⟩ := final
   have hNpos : 0 < num * 5 ^ x := Nat.mul_pos hn0 (Nat.pow_pos (by decide))
-  obtain ⟨hb, k1, k2, k3⟩ := inv_to_close b (num * 5 ^ x) j x hNpos hfin hj20
+  obtain ⟨hb, k1, k2, k3, k4⟩ := inv_to_close b (num * 5 ^ x) j x hNpos hfin hj20
   refine ⟨codeRaw b s, by simp [powerOfPositiveTen, hps, posFinish_eq b s hb hb256 (by omega)], ?_⟩
   rw [hV, hsx]
-  obtain ⟨r1, r2, r3, _⟩ := raw_close b (x + 64 * j) (num * 5 ^ x * 2 ^ x) hb k1 (fun h => k2 h) (fun h => k3 h)
-  exact ⟨r1, r2, r3⟩
+  obtain ⟨r1, r2, r3, r4⟩ := raw_close b (x + 64 * j) (num * 5 ^ x * 2 ^ x) hb k1 (fun h => k2 h) (fun h => k3 h)
+  refine ⟨r1, r2, r3, fun hm => r4 (fun hbit hL => ?_)⟩
+  -- the exact value keeps 1/32 of a unit away from the half-way points; the code is short by < 1/32
+  have hk := k4 hbit
+  have hLV : ¬ (Nat.log2 (num * 5 ^ x * 2 ^ x) ≤ 52) := by omega
+  rcases hm with hm | hm
+  · exact absurd hm hLV
+  · rw [hL, show Nat.log2 b + (x + 64 * j) - 52 = (Nat.log2 b - 53) + 1 + (x + 64 * j) by omega] at hm
+    have hu : 2 ^ (Nat.log2 b - 53 + 1 + (x + 64 * j)) = 2 * (2 ^ (Nat.log2 b - 53) * 2 ^ (x + 64 * j)) := by
+      rw [Nat.pow_add, Nat.pow_succ]; ring
+    rw [hu] at hm
+    generalize 2 ^ (Nat.log2 b - 53) * 2 ^ (x + 64 * j) = h at *
+    generalize num * 5 ^ x * 2 ^ x = V at *
+    generalize b * 2 ^ (x + 64 * j) = B at *
+    generalize V % (2 * h) = r at *
+    rcases hm with hm | hm
+    · left; omega
+    · right; omega
 
 theorem powerOfPositiveTen_close (num x : Nat) (hn0 : 0 < num) (hn : num < 2 ^ 64) (hx : x ≤ 2 ^ 20) :
     ∃ p, powerOfPositiveTen num x = some p ∧ ulpDist p (nearestMag (num * 10 ^ x) 1) ≤ 1 := by
-  obtain ⟨c, h1, c1, c2, _⟩ := powerOfPositiveTen_raw num x hn0 hn hx
+  obtain ⟨c, h1, c1, c2, _, _⟩ := powerOfPositiveTen_raw num x hn0 hn hx
   refine ⟨cap c, h1, ?_⟩
   rw [nearestMag_nat _ (Nat.mul_pos hn0 (Nat.pow_pos (by decide)))]
   exact cap_close _ _ c2 c1
@@ -149,7 +210,7 @@ or as infinity — never as a smaller or wrapped finite pattern. -/
 theorem powerOfPositiveTen_overflow (num x : Nat) (hn0 : 0 < num) (hn : num < 2 ^ 64) (hx : x ≤ 2 ^ 20)
     (hov : (2 ^ 53 - 1) * 2 ^ 971 ≤ num * 10 ^ x) :
     ∃ p, powerOfPositiveTen num x = some p ∧ (p = maxFiniteBits ∨ p = infBits) := by
-  obtain ⟨c, h1, _, _, c3⟩ := powerOfPositiveTen_raw num x hn0 hn hx
+  obtain ⟨c, h1, _, _, c3, _⟩ := powerOfPositiveTen_raw num x hn0 hn hx
   refine ⟨cap c, h1, ?_⟩
   have := floorRaw_ge_maxFinite _ hov
   unfold cap
@@ -158,5 +219,14 @@ theorem powerOfPositiveTen_overflow (num x : Nat) (hn0 : 0 < num) (hn : num < 2 
   split
   · exact Or.inr rfl
   · left; omega
+
+
+/-- **Exact under the margin**: the positive-exponent scaling returns the correctly rounded
+(nearest-even) pattern whenever `num·10^x` keeps 1/32 ulp away from the half-way points. -/
+theorem powerOfPositiveTen_exact (num x : Nat) (hn0 : 0 < num) (hn : num < 2 ^ 64) (hx : x ≤ 2 ^ 20)
+    (hm : MarginInt (num * 10 ^ x)) :
+    powerOfPositiveTen num x = some (nearestMag (num * 10 ^ x) 1) := by
+  obtain ⟨c, h1, _, _, _, c4⟩ := powerOfPositiveTen_raw num x hn0 hn hx
+  rw [h1, nearestMag_nat _ (Nat.mul_pos hn0 (Nat.pow_pos (by decide))), c4 hm]
 
 end Qentem.StrToNum
